@@ -134,7 +134,8 @@ def run(tier, rep, ev):
         coder = coders[i % len(coders)]
         methods = sorted({METHOD_NAME[c] for c in coder.split("+")} | ({"7zAES"} if pw else set())) if shape["nfolders"] else []
         ref_cases.append({"shape": shape, "calls": CALLS, "password": pw, "coder": coder, "header": R.choice(["lzma", "raw"]), "seed": i,
-                          "target": R.choice(["path", "path", "stream"]), "methods": methods, "partialcrc": i % 2 == 1, "wd": os.path.join(base, f"r{i}")})
+                          "target": R.choice(["path", "path", "stream"]), "methods": methods, "partialcrc": i % 2 == 1, "mixedtimes": i % 3 != 0,
+                          "wd": os.path.join(base, f"r{i}")})
     chains = [([{"id": 0x21, "preset": 1}], ["LZMA2"]), ([{"id": 4}, {"id": 0x21, "preset": 1}], ["BCJ", "LZMA2"]),
               ([{"id": 3, "dist": 4}, {"id": 0x21, "preset": 1}], ["DELTA", "LZMA2"]), ([{"id": 0x31}], ["BZip2"]), ([{"id": 0x32}], ["DEFLATE"]),
               ([{"id": 0x33}], ["COPY"]), ([{"id": 0x35, "level": 1}], ["ZStandard"]), ([{"id": 0x37, "level": 1}], ["Brotli"]),
